@@ -5,7 +5,7 @@ cd /verif
 ROUND="$1"; shift
 for ID in "$@"; do
   for N in 1 2 3; do
-    if [ "$ROUND" = 7 ]; then D=/tmp/s7_$ID/change$N; elif [ "$ROUND" = 6 ]; then D=/tmp/s6_$ID/change$N; elif [ "$ROUND" = 5 ]; then D=/tmp/s5_$ID/change$N; elif [ "$ROUND" = 4 ]; then D=/tmp/s4_$ID/change$N; elif [ "$ROUND" = 3 ]; then D=/tmp/s3_$ID/change$N; elif [ "$ROUND" = 2 ]; then D=/tmp/s2_$ID/change$N; else D=/tmp/seed_$ID/change$N; fi
+    if [ "$ROUND" = 8 ]; then D=/tmp/s8_$ID/change$N; elif [ "$ROUND" = 7 ]; then D=/tmp/s7_$ID/change$N; elif [ "$ROUND" = 6 ]; then D=/tmp/s6_$ID/change$N; elif [ "$ROUND" = 5 ]; then D=/tmp/s5_$ID/change$N; elif [ "$ROUND" = 4 ]; then D=/tmp/s4_$ID/change$N; elif [ "$ROUND" = 3 ]; then D=/tmp/s3_$ID/change$N; elif [ "$ROUND" = 2 ]; then D=/tmp/s2_$ID/change$N; else D=/tmp/seed_$ID/change$N; fi
     [ -f $D/patch.diff ] || continue
     LINE="$(tools/try_patch.sh $D/patch.diff $ID 2>&1 | tail -1)"
     printf '%s\n' "$ID/change$N :: $LINE" | cut -c1-420
